@@ -395,6 +395,39 @@ def run_history(otype, config, ops):
                         fails.append(("rpm-device:%s:differs-from-read-property:%s-for-%s" % ("wildcard" if wild else "own-id", got[0], one[0]),
                                       "%s: %s[%r] of %r: ReadPropertyMultiple says %r, ReadProperty says %r" % (ctx, pid, index, target, got, one)))
                         break
+            elif k == "devarr":
+                # computed arrays of the device object: index 0 is the length, index i the i-th element of the array read whole
+                from bacpypes.pdu import PDUData
+                from ..ref import asn1 as R1_
+                target = ("device", 4194303) if op[2] else ("device", 2)
+                stats["refused"] += 1
+
+                def rp_(index):
+                    rq = A.ReadPropertyRequest(objectIdentifier=target, propertyIdentifier=op[1])
+                    if index is not None:
+                        rq.propertyArrayIndex = index
+                    r1 = call(rq)
+                    if not isinstance(r1, A.ReadPropertyACK):
+                        return ("error", error_of(r1))
+                    pd = PDUData()
+                    r1.propertyValue.tagList.encode(pd)
+                    return ("value", bytes(pd.pduData))
+                whole = rp_(None)
+                if whole[0] == "value":
+                    tags, _ = R1_.decode_tags(whole[1])
+                    n0 = rp_(0)
+                    if n0 != ("value", R1_.encode_primitive(R1_.UNSIGNED, len(tags), None)):
+                        fails.append(("device-array:%s:length" % op[1], "%s: the array read whole has %d elements, index 0 says %r" % (ctx, len(tags), n0)))
+                    for i_ in sorted(set([1, 2, 3, len(tags) // 2, len(tags) - 1, len(tags)])):
+                        if 1 <= i_ <= len(tags):
+                            el = rp_(i_)
+                            if el != ("value", R1_.encode_tag(tags[i_ - 1])):
+                                fails.append(("device-array:%s:element-differs-from-whole" % op[1], "%s: element %d read by index is %r, the array read whole has %s there"
+                                              % (ctx, i_, el, R1_.encode_tag(tags[i_ - 1]).hex())))
+                                break
+                    beyond = rp_(len(tags) + 1)
+                    if beyond != ("error", ("error", "property", "invalidArrayIndex")):
+                        fails.append(("device-array:%s:beyond-the-end" % op[1], "%s: index %d of %d answered %r" % (ctx, len(tags) + 1, len(tags), beyond)))
             elif k == "rpm":
                 refs = op[1]
                 from bacpypes.apdu import ReadAccessSpecification
@@ -617,6 +650,7 @@ def history_strategy(otype, focus=None):
         dref = st.sampled_from([["objectName", None], ["objectIdentifier", None], ["objectList", 0], ["objectList", 1], ["objectList", None], ["vendorIdentifier", None],
                                 ["maxApduLengthAccepted", None], ["systemStatus", None], ["objectList", 200], ["presentValue", None], ["objectName", 1], ["protocolServicesSupported", None]])
         alts.append(st.tuples(st.just("dev"), st.lists(dref, min_size=1, max_size=4), st.booleans()).map(list))
+        alts.append(st.tuples(st.just("devarr"), st.sampled_from(["objectList", "propertyList", "objectList"]), st.booleans()).map(list))
         ref = st.tuples(st.sampled_from(pids + unknown_pids[:1]), index).map(list)
         alts.append(st.tuples(st.just("rpm"), st.lists(ref, min_size=1, max_size=4), st.sampled_from([False, False, False, True])).map(list))
         alts.append(st.tuples(st.just("rpm"), st.sampled_from([[["all", None]], [["required", None]], [["optional", None]]]), st.sampled_from([False, False, True])).map(list))
